@@ -91,6 +91,7 @@ type FnCtx struct {
 
 	cells      map[string]SV // captured variables (closure units): name -> pointer to the variable
 	ghostVars  map[string]GhostVar
+	alias      map[string]string // contract name -> actual variable name (renamed variables)
 	lastGhost  map[string]SV // ghost results of the most recent contracted call
 	preDefer   *State
 	modTargets []modTarget // evaluated modifies clause (unit only)
@@ -137,6 +138,13 @@ func newFnCtx(vc *VC, fn *ssa.Function, parent *FnCtx) *FnCtx {
 	}
 	fc.contract = vc.e.spec.Contracts[fc.name]
 	fc.analyze()
+	if parent == nil && fc.contract != nil {
+		var notes []string
+		fc.alias, notes = vc.e.aliases(fn, fc.contract)
+		for _, n := range notes {
+			vc.note("renamed variable in " + fc.name + ": " + n)
+		}
+	}
 	return fc
 }
 
